@@ -4,6 +4,8 @@ CONSTANTS
   NegMag = {2}
   Gaps = {2}
   MaxLen = 6
-INVARIANTS TypeOK RunIsRef ReadIsCurrent PeakToTrough Recovery OnePerPeak NoneIffMonotone MaxIsLargest ClassicMDD
-PROPERTIES ReadingIsPure
+  MaxResets = 1
+INVARIANTS TypeOK RunIsRef ReadIsCurrent ResetIsInit PeakToTrough Recovery OnePerPeak NoneIffMonotone MaxIsLargest ClassicMDD
+PROPERTIES ReadingIsPure PersistIsStutter
 CHECK_DEADLOCK FALSE
+VIEW View
